@@ -768,7 +768,7 @@ def check_run(col, name, entry, X, kind, rank, k, seed, opts, rec, light=False):
     # every callback pair is judged by the Python predicate; Coq cases (round 8 thinning) for the pre-loop pair, the first in-loop pair, the
     # last pair, every CB_STEP-th pair in between and every pair the predicate rejects
     js_ = [j for j, (_, e) in enumerate(rec.cb) if e is not None]
-    keep_ = set(js_[:2] + js_[-1:] + [j for j in js_ if j % CB_STEP[chk.tier] == 0])
+    keep_ = set(js_[:2] + js_[-1:] + [j for j in js_ if j % CB_STEP[getattr(chk, "tier", "quick")] == 0])   # replay() passes a Sink without a tier
     for j, (it, e) in enumerate(rec.cb):
         if e is None:
             continue
